@@ -113,26 +113,19 @@ theorem mem_allValues {v : String} {ps : Props} :
 
 end SelSpec
 
-/-- the closure of `Qualifier(name, query)` against the reading of the code (unnamed clauses
-test the names too), on `Props` as `Props.Add` builds them. -/
+/-- the closure of `Qualifier(name, query)` is the property's reading of a clause, on `Props`
+as `Props.Add` builds them (the unnamed case needs no hypothesis on the rows). -/
 theorem qualEval_iff (mtch : String → String → Bool) (c : String × String) (f : Feature)
-    (hwf : wfProps f.props) : qualEval mtch c.1 c.2 f = true ↔ clauseSatCode mtch c f := by
-  unfold qualEval clauseSatCode
+    (hwf : wfProps f.props) : qualEval mtch c.1 c.2 f = true ↔ clauseSat mtch c f := by
+  unfold qualEval clauseSat
   by_cases hname : c.1 = ""
   · simp only [hname, if_true, List.any_eq_true]
     constructor
     · rintro ⟨row, hrow, v, hv, hm⟩
-      cases row with
-      | nil => simp at hv
-      | cons n vs =>
-        rcases List.mem_cons.mp hv with rfl | hv
-        · exact Or.inr ⟨v, mem_allNames.mpr ⟨_, hrow, rfl⟩, hm⟩
-        · exact Or.inl ⟨v, mem_allValues.mpr ⟨_, hrow, hv⟩, hm⟩
-    · rintro (⟨v, hv, hm⟩ | ⟨n, hn, hm⟩)
-      · obtain ⟨row, hrow, hv⟩ := mem_allValues.mp hv
-        exact ⟨row, hrow, v, List.mem_of_mem_tail hv, hm⟩
-      · obtain ⟨row, hrow, hh⟩ := mem_allNames.mp hn
-        exact ⟨row, hrow, n, List.mem_of_mem_head? hh, hm⟩
+      exact ⟨v, mem_allValues.mpr ⟨_, hrow, hv⟩, hm⟩
+    · rintro ⟨v, hv, hm⟩
+      obtain ⟨row, hrow, hv⟩ := mem_allValues.mp hv
+      exact ⟨row, hrow, v, hv, hm⟩
   · simp only [hname, if_false]
     by_cases hq : c.2 = ""
     · simp only [hq, if_true, true_or, and_true, Props.has_iff]
@@ -153,20 +146,6 @@ theorem qualEval_iff (mtch : String → String → Bool) (c : String × String) 
       cases f.props.find? (Props.named c.1) with
       | none => simp
       | some row => simp [List.any_eq_true]
-
-/-- without a name hit both readings of a clause agree -/
-theorem clauseSatCode_iff_of_no_hit (mtch : String → String → Bool) (c : String × String)
-    (f : Feature) (h : c.1 = "" → ¬ ∃ n ∈ allNames f.props, mtch c.2 n = true) :
-    clauseSatCode mtch c f ↔ clauseSat mtch c f := by
-  unfold clauseSatCode clauseSat
-  by_cases hname : c.1 = ""
-  · simp only [hname, if_true]
-    constructor
-    · rintro (h1 | h1)
-      · exact h1
-      · exact absurd h1 (h hname)
-    · exact Or.inl
-  · simp only [hname, if_false]
 
 /-! ### the parser against the grammar (selectors without backslash) -/
 
